@@ -339,7 +339,7 @@ SPECS['C16'] = dict(
         '<double> with a 0.5 tolerance comparator, <float> and <std::string>; a model value of the same type with the same Eq decides per operation whether every live subscriber must be called '
         'exactly once with the post-operation value (by reference to the held value) or nobody; value() is compared bit for bit, an Eq-equal assignment must leave it untouched, and with default '
         'equality every recording subscriber must hold value(). Values are kept where the arithmetic itself is defined. non-trivial = history with a value-changing operation; distinct = distinct histories',
-        samples, observed=pick(agg, 'histories', 'ops', 'changingOps', 'nonChangingOps', 'subscriberCalls', 'subscribes', 'unsubscribes', 'eqEqualButDifferentAssignments', 'nontrivialCases'),
+        samples, observed=pick(agg, 'histories', 'ops', 'changingOps', 'nonChangingOps', 'subscriberCalls', 'subscribes', 'unsubscribes', 'eqEqualButDifferentAssignments', 'observablesMovedBeforeUse', 'reentrantClampHistories', 'reentrantCorrections', 'nontrivialCases'),
         operations=agg.get('opCount', {}), types=agg.get('types', {})),
     assumptions=['no signed overflow, no integer division by zero, no NaN: UBSan then speaks only about tulz', 'the Observable is not moved while subscriptions exist'],
     manifest=dict(engine='h_observable', text='Lock-step model of the held value with the same equality; the call log of recording subscribers is compared after every operation over seeded histories for '
@@ -417,7 +417,7 @@ SPECS['C17'] = dict(
         'the three overloads (raw with element size 1 and 2, Array<byte>, std::string) in Write/WriteText over an optional longer pre-existing file (truncation), then 0-2 Append/AppendText sessions (also onto a '
         'missing file), verified on disk with std::filesystem/ifstream after every close; then read in Read and ReadText mode through read(), readStr() and read(buffer,size,count) interleaved with seek '
         '(all origins)/tell/size against a position model; NotFound / NotFile probes. non-trivial = non-empty file; distinct = distinct (content, split, mode)',
-        samples, observed=pick(agg, 'files', 'bytesWritten', 'bytesRead', 'writeCalls', 'appendSessions', 'truncations', 'seeks', 'sizeCalls', 'readCalls', 'errorProbes',
+        samples, observed=pick(agg, 'files', 'bytesWritten', 'bytesRead', 'writeCalls', 'appendSessions', 'truncations', 'seeks', 'sizeCalls', 'readCalls', 'errorProbes', 'reopenedOnSamePath', 'readerObjectsReused', 'missingBelowRegularFile', 'missingOverlongName', 'missingInMissingDirectory',
                                'emptyFiles', 'filesWithNul', 'filesWith0xFF', 'filesWithCRLF', 'filesOver1MB', 'nontrivialCases'),
         content_classes=agg.get('contentClasses', {}), modes=agg.get('modes', {})),
     assumptions=['POSIX only: text and binary modes are byte-identical here; the Windows CRLF translation branch is never executed',
